@@ -4,7 +4,7 @@ cd /verif
 S=$1; shift
 P=/verif/seeded/$S/patch.diff
 git -C /repo status --short | grep -q . && { echo "/repo not clean"; exit 1; }
-git -C /repo apply $P 2>/dev/null || git -C /repo apply -3 $P 2>/dev/null || { echo "$S: patch does not apply"; git -C /repo checkout -- . ; exit 1; }
+git -C /repo apply $P 2>/dev/null || git -C /repo apply -3 $P 2>/dev/null || { echo "$S: patch does not apply"; git -C /repo reset -q --hard HEAD; exit 1; }
 ( cd /repo && GOFLAGS=-mod=mod GOPROXY=off go build ./... ) || { echo "$S: does not build"; git -C /repo checkout -- .; exit 1; }
 for p in "$@"; do
   timeout 1500 ./check $p quick > /verif/seeded/$S/recheck_$p.log 2>&1; rc=$?
